@@ -165,10 +165,14 @@ def gen_cases(ck, limit):
                 t1 = tags.next()
                 frh = [sg.call("Echo", 1, t1, v=1), sg.call("Count", 1, tags.next())]
                 fseq = faulty_seq(rng, tags, 0, fault, 0, limit)[1:]
-                ev = [["n", 0], ["n", 1], ["p"], (["hg", t1, k] if what == "hg" else ["wp", 1, 0, k]),
-                      ["a", 1, sg.wire(frh).hex()], ["p"]] + fseq + [["p"]] * (2 * k + 3)
-                add(ev, [0], [1], "fault_while_suspended", {"fault": fault, "k": k, "what": what})
-                cases[-1]["spec_only"] = cases[-2]["spec_only"] = True
+                for late in (False, True):
+                    # late: the faulty client also CONNECTS while the healthy client's call is suspended
+                    ev = ([["n", 1]] if late else [["n", 0], ["n", 1]]) + \
+                         [["p"], (["hg", t1, k] if what == "hg" else ["wp", 1, 0, k]),
+                          ["a", 1, sg.wire(frh).hex()], ["p"]] + ([["n", 0]] if late else []) + fseq + \
+                         [["p"]] * (2 * k + 3)
+                    add(ev, [0], [1], "fault_while_suspended", {"fault": fault, "k": k, "what": what, "late": late})
+                    cases[-1]["spec_only"] = cases[-2]["spec_only"] = True
     # (d) the faulty client is in reply-stream mode: it makes a `more` call (the service answers Multi), some
     #     items go through, then its write fails at item k (every k) -- with 0..3 healthy plain clients (also a
     #     healthy streaming one, so that the failing stream is not at index 0), and with NO other connection,
